@@ -158,8 +158,11 @@ func TestC04Replay(t *testing.T) {
 			re := sim.WithSigs(p.tx, [][]byte{sim.Malleate(raw[0])})
 			m.univ = append(m.univ, &payload{id: p.id, name: p.name + "'", tx: re, exp: p.exp, reencoded: true})
 		}
-		for i := 0; i < 3; i++ { // boxes (a box is signed content of its own)
-			a, b := m.univ[(2*i)%nplain], m.univ[(2*i+3)%nplain]
+		// boxes (a box is signed content of its own): pairs far apart, pairs whose later expiration is within one lifetime of the
+		// box's own expiration (but not of an early block), and the same sub transaction twice
+		pairs := [][2]int{{0, 3}, {2, 5}, {4, 1}, {1, 3}, {0, 1}, {1, 1}, {3, 3}, {2, 4}}
+		for i, pr := range pairs {
+			a, b := m.univ[pr[0]], m.univ[pr[1]]
 			exp := a.exp
 			if b.exp < exp {
 				exp = b.exp
